@@ -71,3 +71,23 @@ Proof. split; [vm_compute; reflexivity|]. intros H. vm_compute in H. discriminat
 Example C03_refuted_ext_method :
   length (c03_obs c03_ok c03_g c03_ext_whole) = 1%nat /\ length (c03_obs c03_ok c03_g c03_ext_split) = 2%nat.
 Proof. split; vm_compute; reflexivity. Qed.
+
+(* ---- the REQUEST direction on the wire grammar (Spec/SWire.v: request line, header fields, no folding, no body), EVERY chunking:
+        for every list of non-empty chunks whose concatenation is the request, the reported transaction is the one of the single-chunk delivery
+        (up to the multi-packet-head indicator). The limit premise sg_fits is needed and is more than "every line fits": the hard limit is applied to
+        the buffered bytes PLUS the header line that is still pending because its look-ahead byte fell at a chunk end (Example sg_limit_premise_needed:
+        with limit 20 and lines of at most 17 bytes the single-chunk run completes, the run cut at 39 and 40 ends in STREAM_ERROR) ---- *)
+Require Import Htp.Spec.SWire Htp.Proof.PWireExch Htp.Proof.PWireGlue Htp.Proof.PSeg Htp.Proof.PSegRun.
+Theorem C03_request_chunking : forall cb g r (chunks : list bytes),
+  wr_all_ok cb -> g_allow_space_uri g = false -> wr_request_ok r = true -> sg_fits g r = true ->
+  Forall (fun x => x <> []) chunks -> concat chunks = wr_request_wire r ->
+  c03_obs cb g (OpOpen :: map OpReqData chunks) = c03_obs cb g [OpOpen; OpReqData (wr_request_wire r)].
+Proof. exact sg_request_chunking_obs. Qed.
+Print Assumptions C03_request_chunking.
+(* ... and what is reported is what was sent (with C02's fidelity theorem for the single-chunk delivery) *)
+Theorem C03_request_chunking_reported : forall cb g r (chunks : list bytes),
+  wr_all_ok cb -> g_allow_space_uri g = false -> wr_request_ok r = true -> sg_fits g r = true ->
+  Forall (fun x => x <> []) chunks -> concat chunks = wr_request_wire r ->
+  exists t, c_txs (fst (cp_run cb g connp_new (OpOpen :: map OpReqData chunks))) = [Some t] /\ wr_reported (c03_mask t) r.
+Proof. exact sg_request_chunking_reported. Qed.
+Print Assumptions C03_request_chunking_reported.
